@@ -193,6 +193,11 @@ def run(ctx):
         for (ty, l, r) in [("int", "a.i", "b.i"), ("int", "a.i", "3"), ("int", "a.i", "3000000000"), ("int", "2", "a.i"), ("uint", "a.u", "3"), ("uint", "a.u", "4294967296"),
                            ("double", "a.d", "2.5"), ("double", "a.d", "b.d"), ("string", "a.s", "b.s")]:
             items.append(("binding", prog.PROP_OF[ty], "%s(%s, %s)" % (f, l, r), ty))
+    # constants that fold to a non-finite double (F19, repaired: they must be spelled with something C++ knows)
+    for c in ["(1e308 * 100.0)", "(0.5 / 0.0)", "(-0.5 / 0.0)", "(1e-2 / 5e-324)", "(0.0 / 0.0)", "-(1e308 * 100.0)", "(1e308 * 100.0 - 1e308 * 100.0)", "(1e308 + 1e308)"]:
+        items.append(("binding", "d", "a.d + %s" % c, "double"))
+        items.append(("binding", "b", "a.d < %s" % c, "bool"))
+        items.append(("handler", "onFired", "{ a.d = %s; }" % c, None))
     singles = []
     for kind, name, src, t in items:
         if kind == "binding":
